@@ -44,7 +44,7 @@ func (c *Ctx) ChooseCost(n, cost int) int {
 	if i < len(c.prefix) {
 		v = c.prefix[i]
 		if v >= n {
-			panic(fmt.Sprintf("explore: replay divergence at point %d: forced %d, arity %d", i, v, n))
+			panic(divergence(fmt.Sprintf("explore: replay divergence at point %d: forced %d, arity %d", i, v, n)))
 		}
 	}
 	c.choices = append(c.choices, v)
@@ -71,6 +71,10 @@ type Options struct {
 	Workers int         // goroutines; 0 = GOMAXPROCS
 	Stop    func() bool // polled between executions; true = stop early (not exhaustive)
 	MaxExec int64       // safety cap on executions; 0 = none
+	// OnDivergence, if set, is called instead of aborting when replaying a forced prefix meets a
+	// choice point of smaller arity than recorded: the program under test did not behave as a
+	// function of its choice vector. That execution is abandoned.
+	OnDivergence func(vector []int, msg string)
 }
 
 // Stats describe what was explored.
@@ -132,7 +136,13 @@ func Explore(opts Options, gen func(c *Ctx)) Stats {
 				var next []item
 				if !stopped.Load() {
 					c := &Ctx{prefix: it.prefix, Devs: it.devs, Worker: w}
-					runGen(gen, c)
+					if !runGen(gen, c, opts.OnDivergence) {
+						mu.Lock()
+						busy--
+						mu.Unlock()
+						cond.Broadcast()
+						continue
+					}
 					execs.Add(1)
 					for len(perLevel[w]) <= it.devs {
 						perLevel[w] = append(perLevel[w], 0)
@@ -185,9 +195,17 @@ func Explore(opts Options, gen func(c *Ctx)) Stats {
 	return stats
 }
 
-func runGen(gen func(c *Ctx), c *Ctx) {
+type divergence string
+
+func runGen(gen func(c *Ctx), c *Ctx, onDiv func([]int, string)) (ok bool) {
+	ok = true
 	defer func() {
 		if r := recover(); r != nil {
+			if d, isDiv := r.(divergence); isDiv && onDiv != nil {
+				onDiv(append([]int(nil), c.prefix...), string(d))
+				ok = false
+				return
+			}
 			// a panic escaping a generator is a harness defect (jennifer panics are caught and
 			// judged inside the generators), never a property violation
 			fmt.Fprintf(os.Stderr, "HARNESS FAILURE: panic in generator with choice vector %v: %v\n%s\n", c.choices, r, debug.Stack())
@@ -195,6 +213,7 @@ func runGen(gen func(c *Ctx), c *Ctx) {
 		}
 	}()
 	gen(c)
+	return ok
 }
 
 // Range calls fn(i) for every i in [0,n), spread over workers in contiguous chunks; fn must be
